@@ -678,7 +678,7 @@ def eval_series_update(s, snap, sm, iface, route, k, vspec=None):
                 elif len(o['data']) != n or not all(cell_eq(a, b) for a, b in zip(o['data'], data)):
                     sym = 'wrong-cells'
                 elif not R and o['dtype'] != dt:
-                    sym = 'dtype-changed-without-value'
+                    sym = 'dtype-changed-though-no-cell-addressed'
                 elif o['name'] != sm.name:
                     sym = 'name-changed'
                 else:
@@ -699,6 +699,8 @@ def eval_series_update(s, snap, sm, iface, route, k, vspec=None):
                 sym = 'labels-changed'
             elif o['dtype'] != 'bool' or o['data'] != [i in R for i in range(n)]:
                 sym = 'wrong-mask'
+    if sym == 'dtype-changed-though-no-cell-addressed':
+        tail = ''
     if sym is not None:
         return outcome(False, f'{area}:{sym}{tail}', f'{iface} result differs from the model ({sym}); R={R} observed {str(obs_series(r) if hasattr(r, "index") else r)[:300]}')
     return outcome(True, nontrivial=bool(R))
